@@ -11,7 +11,9 @@ import (
 	"sync/atomic"
 	"time"
 
+	"go.einride.tech/can/pkg/canrunner"
 	"go.einride.tech/can/pkg/descriptor"
+	examplecan "go.einride.tech/can/testdata/gen/go/example"
 )
 
 type appOp struct {
@@ -28,6 +30,7 @@ type txSpec struct {
 	cycType  bool          // SendType cyclic whatever the cycle time is (cycle 0: must never get a ticker)
 	noType   bool          // SendType none (default: event)
 	startOn  bool          // cyclic transmission is already enabled when the transmitter starts, the wake-up channel is empty
+	genMsg   bool          // flag + wake-up channel of a GENERATED message; a toggle = one call of its SetCyclicTransmissionEnabled
 	hookFail map[int]bool
 	hookLock map[int]bool
 	txFail   map[int]bool
@@ -48,6 +51,7 @@ type appState struct {
 	script   []appOp
 	pos      int
 	offering int
+	wsDone   bool // the wake-up send of the toggle in progress was part of the generated setter
 }
 
 type action struct {
@@ -176,9 +180,11 @@ func (r *runner) settle(t int, kind string) {
 // wake-up channel of capacity one.
 func (r *runner) wakeSend(app, m int) {
 	msg := r.w.msgs[m]
-	select {
-	case msg.wakeCh <- struct{}{}:
-	default:
+	if msg.gen == nil { // (a generated message: its SetCyclicTransmissionEnabled has already sent)
+		select {
+		case msg.wakeCh <- struct{}{}:
+		default:
+		}
 	}
 	msg.token = true
 	r.w.emit(fmt.Sprintf("WS.%x.%x", app, m))
@@ -195,7 +201,7 @@ func (r *runner) noteWake(t int) {
 	r.w.mu.Lock()
 	arrived := r.w.waiting[t] != nil
 	r.w.mu.Unlock()
-	if arrived && len(m.wakeCh) == 0 {
+	if arrived && m.wakeLen() == 0 {
 		m.token = false
 		r.w.emit(fmt.Sprintf("WK.%x", t))
 	}
@@ -212,7 +218,7 @@ func (r *runner) syncWake(t int) {
 		return
 	}
 	if r.parked(t) && !r.waitEvt(t, curTimeout()) {
-		if len(m.wakeCh) != 0 {
+		if m.wakeLen() != 0 {
 			return // the token is still there: the loop is just not in its select (yet)
 		}
 		// give a slow machine more time before calling it a dropped token
@@ -367,9 +373,28 @@ func (r *runner) exec(a action) {
 			w.msgs[op.m].content = op.v
 			w.emit(fmt.Sprintf("M.%x.%x.%x.%s", ap.tid, op.m, op.v, w.held(ap.tid)))
 		case "setflag":
-			w.msgs[op.m].flag = op.b
+			msg := w.msgs[op.m]
+			msg.flag = op.b
+			if msg.gen != nil {
+				// the generated setter: set the flag, (non-blocking) send on the wake-up channel - one call.  The
+				// model has them as two events, logged back to back.  A call that does not come back within a
+				// second is an application blocked while it holds the node lock: TB.a.m
+				b := op.b
+				if !callWithin(time.Second, func() { msg.gen.SetCyclicTransmissionEnabled(b) }) {
+					w.emit(fmt.Sprintf("TB.%x.%x", ap.tid, op.m))
+					noteTimeout()
+				}
+				w.emit(fmt.Sprintf("SF.%x.%x.%s", ap.tid, op.m, b01(op.b)))
+				r.wakeSend(ap.tid, op.m)
+				ap.wsDone = true
+				break
+			}
 			w.emit(fmt.Sprintf("SF.%x.%x.%s", ap.tid, op.m, b01(op.b)))
 		case "wakesend":
+			if ap.wsDone {
+				ap.wsDone = false
+				break
+			}
 			r.wakeSend(ap.tid, op.m)
 		case "offer":
 			ap.offering = op.m
@@ -447,6 +472,18 @@ func setup(sc scenario, dir *directed) (*runner, string) {
 		}
 		m := &fakeTxMsg{w: w, n: n, tid: x.tid, desc: d, wakeCh: make(chan struct{}, 1), evOut: make(chan struct{}),
 			hookFail: x.hookFail, hookLock: x.hookLock, txFail: x.txFail, flag: x.startOn}
+		if x.genMsg {
+			// MotorCommand of a fresh generated DRIVER node (never run: only its flag, setter and wake-up channel are used)
+			g := examplecan.NewDRIVER("none", "none").(canrunner.Node).TransmittedMessages()[1].(genTx)
+			if x.startOn {
+				g.SetCyclicTransmissionEnabled(true)
+				select { // enabled long ago: the token has been consumed
+				case <-g.WakeUpChan():
+				default:
+				}
+			}
+			m.gen = g
+		}
 		w.msgs[x.tid] = m
 		r.threads = append(r.threads, x.tid)
 		// the descriptor's facts; whether the message may get a ticker is computed by the model
@@ -587,7 +624,7 @@ func fixedScenarios() []scenario {
 			rx:   []rxItem{{id: 0x10, hookLock: true}, {id: 0x99, remote: true}, {id: 0x11}, {id: 0x98, extended: true, badLen: true}, {id: 0x10, remote: true}, {id: 0x11}, {end: true}},
 			txs:  []txSpec{{tid: 2, hookLock: map[int]bool{1: true}}},
 			apps: [][]appOp{cat(lockBlock(appOp{kind: "mutate", m: 2, v: 5}), off(2)), lockBlock(appOp{kind: "mutate", m: 2, v: 9})}},
-		{name: "toggle", txs: []txSpec{{tid: 2}},
+		{name: "toggle", txs: []txSpec{{tid: 2, genMsg: true}},
 			apps: [][]appOp{cat(toggle(2, true), off(2), toggle(2, false)), cat(off(2), toggle(2, true))}},
 		{name: "twotx", txs: []txSpec{{tid: 2, cycle: 250 * time.Millisecond}, {tid: 3, cycle: 2 * time.Millisecond, hookLock: map[int]bool{1: true}}},
 			apps: [][]appOp{cat(off(2), off(3), toggle(3, true)), cat(lockBlock(appOp{kind: "mutate", m: 3, v: 4}), off(3))}},
@@ -597,7 +634,12 @@ func fixedScenarios() []scenario {
 		{name: "rxhookerr", hasRx: true, rx: []rxItem{{id: 0x99}, {id: 0x10}, {id: 0x11, hookFail: true}, {id: 0x10}, {end: true}},
 			txs:  []txSpec{{tid: 2}},
 			apps: [][]appOp{cat(off(2), toggle(2, true))}},
-		{name: "starton", txs: []txSpec{{tid: 2, startOn: true}, {tid: 3}},
+		{name: "toggles2", txs: []txSpec{{tid: 2, genMsg: true, hookLock: map[int]bool{1: true}}},
+			apps: [][]appOp{
+				cat(off(2), lockBlock(appOp{kind: "setflag", m: 2, b: true}, appOp{kind: "wakesend", m: 2}, appOp{kind: "setflag", m: 2, b: false},
+					appOp{kind: "wakesend", m: 2}, appOp{kind: "setflag", m: 2, b: true}, appOp{kind: "wakesend", m: 2})),
+				cat(toggle(2, true), toggle(2, true), toggle(2, false), off(2))}},
+		{name: "starton", txs: []txSpec{{tid: 2, startOn: true, genMsg: true}, {tid: 3}},
 			apps: [][]appOp{cat(off(2), toggle(2, false), off(3)), cat(toggle(3, true), toggle(2, true))}},
 		{name: "cancelrace", hasRx: true, rx: []rxItem{{id: 0x10}, {end: true, endErr: true}},
 			txs:  []txSpec{{tid: 2}},
@@ -671,6 +713,7 @@ func randomScenario(rng *rand.Rand, k int) scenario {
 		x := txSpec{tid: 2 + i, hookFail: map[int]bool{}, hookLock: map[int]bool{}, txFail: map[int]bool{}}
 		x.cycle = []time.Duration{0, 0, time.Nanosecond, 700 * time.Microsecond, 40 * time.Millisecond, 3 * time.Second}[rng.Intn(6)]
 		x.startOn = rng.Intn(4) == 0
+		x.genMsg = rng.Intn(3) == 0
 		// send type: event (default), none, or cyclic WITHOUT a cycle time: never a ticker, so the schedule stays
 		// under the scheduler's control (messages with a ticker: the tick scenarios)
 		switch rng.Intn(4) {
